@@ -296,7 +296,7 @@ theorem replace_str_all (x : AStr) (old raw : Str) (count : Int) (nid : Nat)
     styled (x.replace old (.str raw) count nid) =
       PySpec.replaceStyled (styled x) old (fun st => raw.map (fun c => (c, st))) count := by
   have h := replaceLoop_styled old hold (.str raw) (fun st => raw.map (fun c => (c, st))) InvS
-    (fun _ => by simp [AStr.Repl.advance]) (str_step old hold raw hraw)
+    (fun _ => by simp [AStr.Repl.advance, AStr.len, C02.parse_plain raw 0 hraw]) (str_step old hold raw hraw)
     (fun s c => PySpec.replaceStyledGo old (fun st => raw.map (fun c => (c, st))) s 0 c)
     (fun s c hs => PySpec.replaceStyledGo_absent old _ s c hs)
     (fun s => PySpec.replaceStyledGo_zero old _ s)
